@@ -47,6 +47,7 @@ def tool_cases(draw, name, tier):
             s["fl"] = draw(st.sampled_from(["agen", "aclass", "aplain", "aclass", "aclass_noclose", "agenlike", "aproxy",
                                              "areiter", "alateclose"]))
             s["eqsrc"] = draw(st.integers(0, 2)) == 0
+            s["falsy"] = draw(st.integers(0, 3)) == 0
             s["susp"] = draw(st.integers(1, 2))
             s["cret"] = draw(st.sampled_from([None, None, True]))
     else:
